@@ -3,12 +3,16 @@
    _blocking_run_deferred (394-406), _run_core (419-456) with the log fixtures
    (106-181), and RunTest._run_prepared_result's choice of the reported exception
    (runtest.py:98-128), as TIMED STAGES ON A VIRTUAL CLOCK (DESIGN 6 C14):
-   a stage starts at the instant its predecessor's Deferred fired; the run is cut
-   at the Spinner timeout or at an interrupt instant, whichever comes first; what
-   is still scheduled then is junk.  That "the next stage starts when the previous
-   Deferred fires" is built into this model and tied to the code by the
-   correspondence check (real Deferreds, real inlineCallbacks over a virtual
-   reactor).  Executable definitions only. *)
+   a stage starts at the instant the whole chain of its predecessor's Deferred was over
+   (whether that Deferred was handed over unfired, or already fired but paused); the run is
+   cut at the Spinner timeout or at an interrupt instant, whichever comes first; what is
+   still scheduled then is junk.  A Deferred due exactly at the cut instant has lost, but
+   the reactor may still make passes over what is due at that instant (the rest of the
+   timeout call's iteration on a batch reactor, Spinner._clean's obligatory iterations):
+   then the callback graph is RESUMED where it was waiting (resume_at, late) while the
+   verdict stands.  That "the next stage starts when the previous chain is over" is built
+   into this model and tied to the code by the correspondence check (real Deferreds, real
+   inlineCallbacks over a virtual reactor).  Executable definitions only. *)
 From TT Require Import Lib.Base Model.Reactor Gen.Spinnertabs.
 
 Definition time := nat.
@@ -23,7 +27,10 @@ Inductive cls :=
 Inductive sret :=
 | RReturn                              (* returns a plain value *)
 | RRaise (c : cls)                     (* raises *)
+| RFired (f : option cls)              (* returns an already fired Deferred: succeed(None) (None) / fail(e) (Some c) *)
 | RLater (d : time) (f : option cls)   (* returns a Deferred that fires (None) / fails (Some c) d ticks later *)
+| RChained (d : time) (f : option cls) (* returns an ALREADY FIRED Deferred whose callback chain is paused on an inner
+                                          Deferred that fires / fails d ticks later (Deferred.called is True) *)
 | RNever.                              (* returns a Deferred that never fires *)
 
 Record stage := mkStage {
@@ -36,6 +43,9 @@ Record stage := mkStage {
 
 Record program := mkProgram {
   i_broken : bool;                     (* AsynchronousDeferredRunTestForBrokenTwisted *)
+  i_batch : bool;                      (* the reactor runs every call that is due when an iteration begins in that
+                                          iteration, whatever crash() did meanwhile (the real runUntilCurrent); false:
+                                          one call per iteration, crash() takes effect at once *)
   i_suppress : bool;                   (* suppress_twisted_logging *)
   i_store : bool;                      (* store_twisted_logs *)
   i_nobs : nat;                        (* extra log observers installed before the run *)
@@ -73,25 +83,38 @@ Definition start_stage (sid : nat) (st : stage) (m : sim) : sim :=
         (m_logged m + b2n (s_logerr st)) (m_dropped m + b2n (s_drop st)) (m_pollers m + b2n (s_poll st))
         (m_log m ++ [(sid, m_now m)]).
 
-(* the clock moves to t: every leftover due up to t (scheduled before the call that
-   fires at t) has run *)
+(* the reactor reaches instant t / makes a pass at instant t: every leftover due up to t that was scheduled
+   before has run *)
 Definition advance (t : time) (m : sim) : sim :=
   mkSim t (m_excs m) (m_fails m) (filter (fun u => Nat.ltb t u) (m_pending m))
         (m_logged m) (m_dropped m) (m_pollers m) (m_log m).
 
-Inductive sres :=
-| Done (caught : option cls) (m : sim)   (* the stage's Deferred fired at m_now m; the exception it raised / failed with *)
-| Cut (m : sim).                          (* it had not fired when the run was cut *)
+(* what the runner has to wait for: nothing (the result or the failure is there at once), the end of a callback
+   chain d ticks later - whether the Deferred it was handed has `called` set or not -, or for ever *)
+Inductive completion := NowWith (f : option cls) | After (d : time) (f : option cls) | NeverDone.
+Definition completion_of (r : sret) : completion :=
+  match r with
+  | RReturn => NowWith None
+  | RRaise c => NowWith (Some c)
+  | RFired f => NowWith f
+  | RLater d f => After d f
+  | RChained d f => After d f
+  | RNever => NeverDone
+  end.
 
-(* C = the cut instant: a Deferred due at t fires iff t < C (the timeout call is older
-   than every call of the test, and an interrupt is delivered before the calls due at it) *)
+Inductive sres :=
+| Done (caught : option cls) (m : sim)                         (* the stage's Deferred fired at m_now m; what it raised / failed with *)
+| Cut (m : sim) (due : option time) (f : option cls).          (* it had not fired when the run was cut: the instant at
+                                                                  which it is due (None: never), what it will fail with *)
+
+(* C = the cut instant: a Deferred due at t fires iff t < C (the timeout call is older than every call of the
+   test, and an interrupt is delivered before the calls due at it) *)
 Definition run_stage (C : time) (sid : nat) (st : stage) (m : sim) : sres :=
   let m := start_stage sid st m in
-  match s_ret st with
-  | RReturn => Done None m
-  | RRaise c => Done (Some c) m
-  | RLater d f => if Nat.ltb (m_now m + d) C then Done f (advance (m_now m + d) m) else Cut m
-  | RNever => Cut m
+  match completion_of (s_ret st) with
+  | NowWith f => Done f m
+  | After d f => if Nat.ltb (m_now m + d) C then Done f (advance (m_now m + d) m) else Cut m (Some (m_now m + d)) f
+  | NeverDone => Cut m None None
   end.
 
 (* _run_user: maybeDeferred + addErrback(_got_user_failure); the callback
@@ -104,49 +127,80 @@ Definition note_failure (c : option cls) (m : sim) : sim :=
   end.
 
 (* _run_cleanups: pops and awaits each cleanup; remembers only the LAST exception *)
+Definition merge (c last : option cls) : option cls := match c with Some x => Some x | None => last end.
+
 Inductive cres :=
 | CDone (last : option cls) (m : sim)
-| CCut (m : sim) (nleft : nat).            (* cleanups still registered *)
+| CCut (m : sim) (due : option time) (f : option cls)        (* the generator is suspended on this cleanup's Deferred *)
+       (rest : list (nat * stage)) (last : option cls).       (* cleanups still registered; last_exception so far *)
 
 Fixpoint run_cleanups (C : time) (cs : list (nat * stage)) (last : option cls) (m : sim) : cres :=
   match cs with
   | [] => CDone last m
   | (k, st) :: r =>
       match run_stage C k st m with
-      | Cut m' => CCut m' (length r)
-      | Done c m' => run_cleanups C r (match c with Some x => Some x | None => last end) m'
+      | Cut m' due f => CCut m' due f r last
+      | Done c m' => run_cleanups C r (merge c last) m'
       end
   end.
 
 Fixpoint number_from (k : nat) (l : list stage) : list (nat * stage) :=
   match l with [] => [] | s :: r => (id_cleanup k, s) :: number_from (S k) r end.
 
-(* clean_up / clean_up_done *)
-Inductive rres :=
-| Completed (m : sim)                     (* the Deferred of _run_deferred fired *)
-| Stopped (m : sim) (nleft : nat).         (* cut: the reactor was crashed first *)
+(* where the callback graph of _run_deferred is waiting: the Deferred of which stage has not fired *)
+Inductive waiting :=
+| WSetup | WBody | WTeardown
+| WCleanup (rest : list (nat * stage)) (last : option cls).
 
+Inductive rres :=
+| Completed (m : sim)                                         (* the Deferred of _run_deferred fired *)
+| Stopped (m : sim) (nleft : nat)                             (* the reactor stopped first; cleanups still registered *)
+          (due : option time) (f : option cls) (w : waiting). (* the outstanding Deferred and who waits for it *)
+
+(* _run_cleanups resumed / started; clean_up_done *)
+Definition k_cleanups (C : time) (cs : list (nat * stage)) (last : option cls) (m : sim) : rres :=
+  match run_cleanups C cs last m with
+  | CDone last' m' => Completed (note_failure last' m')
+  | CCut m' due f rest last' => Stopped m' (length rest) due f (WCleanup rest last')
+  end.
 Definition clean_up (C : time) (p : program) (m : sim) : rres :=
-  match run_cleanups C (rev (number_from 0 (i_cleanups p))) None m with
-  | CCut m' nleft => Stopped m' nleft
-  | CDone last m' => Completed (note_failure last m')
+  k_cleanups C (rev (number_from 0 (i_cleanups p))) None m.
+
+(* tear_down and what follows when its Deferred has fired with c *)
+Definition k_teardown (C : time) (p : program) (c : option cls) (m : sim) : rres := clean_up C p (note_failure c m).
+Definition tear_down (C : time) (p : program) (m : sim) : rres :=
+  match run_stage C id_teardown (i_teardown p) m with
+  | Done c m' => k_teardown C p c m'
+  | Cut m' due f => Stopped m' (length (i_cleanups p)) due f WTeardown
+  end.
+(* the test method *)
+Definition k_body (C : time) (p : program) (c : option cls) (m : sim) : rres := tear_down C p (note_failure c m).
+Definition run_test (C : time) (p : program) (m : sim) : rres :=
+  match run_stage C id_body (i_body p) m with
+  | Done c m' => k_body C p c m'
+  | Cut m' due f => Stopped m' (length (i_cleanups p)) due f WBody
+  end.
+(* set_up_done: a failed setUp goes straight to the cleanups *)
+Definition set_up_done (C : time) (p : program) (c : option cls) (m : sim) : rres :=
+  match c with
+  | Some x => clean_up C p (note_failure (Some x) m)
+  | None => run_test C p m
   end.
 
 (* _run_deferred *)
 Definition run_deferred (C : time) (p : program) : rres :=
-  let ncl := length (i_cleanups p) in
   match run_stage C id_setup (i_setup p) sim0 with
-  | Cut m => Stopped m ncl
-  | Done (Some c) m => clean_up C p (note_failure (Some c) m)        (* set_up_done: straight to the cleanups *)
-  | Done None m =>
-      match run_stage C id_body (i_body p) m with
-      | Cut m => Stopped m ncl
-      | Done c m =>
-          match run_stage C id_teardown (i_teardown p) (note_failure c m) with
-          | Cut m => Stopped m ncl
-          | Done c m => clean_up C p (note_failure c m)
-          end
-      end
+  | Done c m => set_up_done C p c m
+  | Cut m due f => Stopped m (length (i_cleanups p)) due f WSetup
+  end.
+
+(* the outstanding Deferred fires (with f) although the run has been cut: its callbacks run *)
+Definition resume_at (C : time) (p : program) (w : waiting) (f : option cls) (m : sim) : rres :=
+  match w with
+  | WSetup => set_up_done C p f m
+  | WBody => k_body C p f m
+  | WTeardown => k_teardown C p f m
+  | WCleanup rest last => k_cleanups C rest (merge f last) m
   end.
 
 (* ---- the cut ---- *)
@@ -213,12 +267,11 @@ Record outcome := mkOut {
 Definition iterations (p : program) : nat :=
   if i_broken p then broken_runner_iterations else runner_iterations.
 
-(* Spinner._clean: the obligatory iterations run what is due; the rest is cancelled and reported *)
-Definition junk_of (p : program) (m : sim) : list time :=
-  match iterations p with
-  | 0 => m_pending m
-  | S _ => filter (fun u => Nat.ltb (m_now m) u) (m_pending m)
-  end.
+(* reactor.iterate(0) n times at the instant the clock stands at: every leftover due by now runs *)
+Definition settle (n : nat) (m : sim) : sim := match n with 0 => m | S _ => advance (m_now m) m end.
+
+(* Spinner._clean cancels and reports what is left after the obligatory iterations (they are applied by `run`) *)
+Definition junk_of (p : program) (m : sim) : list time := m_pending m.
 (* is anything left with the reactor: a leftover call that has not run, or a poller (whether or not the
    iterations ran one of its instances, the next one is scheduled) *)
 Definition dirty (p : program) (m : sim) : bool :=
@@ -265,17 +318,45 @@ Definition finish (p : program) (ok : bool) (unhandled : nat) (stop : bool) (nle
         (observers_after p)
         nleft.
 
-(* the run was cut at C: NoResultError / TimeoutError is logged as a user exception; the
-   leftovers due before C have run; the clock stands at C *)
-Definition after_cut (C : time) (m : sim) : sim :=
-  mkSim C (m_excs m ++ [CErr]) (m_fails m) (filter (fun u => Nat.leb C u) (m_pending m))
+(* the run is cut at C: the clock stands at C, the leftovers due before C have run *)
+Definition reach_cut (C : time) (m : sim) : sim :=
+  mkSim C (m_excs m) (m_fails m) (filter (fun u => Nat.leb C u) (m_pending m))
         (m_logged m) (m_dropped m) (m_pollers m) (m_log m).
+(* NoResultError / TimeoutError is logged as a user exception (after spinner.run has raised it) *)
+Definition note_cut (m : sim) : sim :=
+  mkSim (m_now m) (m_excs m ++ [CErr]) (m_fails m) (m_pending m) (m_logged m) (m_dropped m) (m_pollers m) (m_log m).
+
+(* After the cut the reactor may still make passes over what is due AT the cut instant, while the verdict
+   (TimeoutError / NoResultError) stands:
+     - when the Spinner's timeout call crashed a batch reactor, the other calls that were due when that
+       iteration began still run in it (one pass);
+     - Spinner._clean iterates the reactor _OBLIGATORY_REACTOR_ITERATIONS times (one pass each).
+   A pass runs the calls that were scheduled before it began: the leftovers due by now, and the outstanding
+   Deferred if it is due exactly at the cut instant - then the stages that follow run as far as they complete
+   synchronously; a stage that waits for a Deferred due at this very instant is picked up by the next pass. *)
+Definition passes (p : program) : nat :=
+  (match cut_kind p with KTimeout => b2n (i_batch p) | KInterrupt => 0 end) + iterations p.
+
+Fixpoint late (n : nat) (C : time) (p : program) (m : sim) (nleft : nat)
+              (due : option time) (f : option cls) (w : waiting) : sim * nat :=
+  match n with
+  | 0 => (m, nleft)
+  | S n' =>
+      let m1 := advance C m in
+      if option_eqb Nat.eqb due (Some C) then
+        match resume_at C p w f m1 with
+        | Completed m2 => (settle n' m2, 0)          (* _got_success comes too late: AlreadyCalled / nobody looks *)
+        | Stopped m2 nleft' due' f' w' => late n' C p m2 nleft' due' f' w'
+        end
+      else (m1, nleft)
+  end.
 
 Definition run (p : program) : outcome :=
   let C := cut_instant p in
   match run_deferred C p with
-  | Completed m => finish p (Nat.eqb (m_fails m) 0) (m_dropped m) false 0 m
-  | Stopped m nleft =>
+  | Completed m => finish p (Nat.eqb (m_fails m) 0) (m_dropped m) false 0 (settle (iterations p) m)
+  | Stopped m nleft due f w =>
       (* trap_unhandled_errors does no accounting when spinner.run raised; an interrupt also stops the result *)
-      finish p false 0 (match cut_kind p with KInterrupt => true | KTimeout => false end) nleft (after_cut C m)
+      let '(m1, nleft') := late (passes p) C p (reach_cut C m) nleft due f w in
+      finish p false 0 (match cut_kind p with KInterrupt => true | KTimeout => false end) nleft' (note_cut m1)
   end.
